@@ -196,6 +196,8 @@ func reference(c *cfg, p map[string]any, alg string, withAccess bool, access str
 				grey("at_hash-empty-string")
 			case ah != leftHalf(hashFor(alg), access):
 				rej("at_hash")
+			case isHS(alg):
+				grey("at_hash-under-HMAC-alg") // the right hash, but the library knows no hash for HS*: refusing is legal
 			case access == "":
 				grey("at_hash-of-empty-access-token")
 			}
